@@ -73,6 +73,8 @@ def check(prog, ctx):
     ctx.rule('C06.f', 'Gamma = exp(GammaLn); GammaLn is the 14-term Lanczos form (g=671/128) with the published coefficients', 3)
     ctx.rule('C06.h', 'Inv_GammaP: one iteration is a Halley step x -= u/(1-min(1,u((a-1)/x-1))/2) with u=(P(x,a)-p)/P\'(x,a), and the '
              'iteration stops on a relative step |t| < EPS*x with EPS <= 1e-7', 2)
+    ctx.rule('C06.i', 'quadrature branch (a>100): the integrand t^(a-1)e^-t/Gamma(a) is only evaluated at t >= 0 - both integration limits handed '
+             'to Find_Epsilon/Integrate are provably non-negative (lower limit max(0, .) or 0; upper limit x >= 0 by GammaQ\'s guard)', 1)
     gq = prog.fn(L + 'GammaQ')
     # ---- C06.b branch selection
     sx = Symx(prog, gq)
@@ -160,6 +162,7 @@ def check(prog, ctx):
     continued_fraction(prog, ctx, cf)
     series(prog, ctx, ser, cf)
     halley(prog, ctx)
+    quadrature_window(prog, ctx, gq)
     memo(prog, ctx)
     lanczos(prog, ctx)
 
@@ -562,3 +565,42 @@ def halley(prog, ctx):
                     okstep = True
     ctx.decide(R, 'Inv_GammaP:halley-step', fn, okstep, 'x -= u/(1-min(1,u((a-1)/x-1))/2), u=(P(x,a)-p)/(x^(a-1)e^-x/Gamma(a))',
                'iteration step is not the Halley step: %s' % str(got)[:300], line=loop['l'], form=str(got)[:400])
+
+
+def quadrature_window(prog, ctx, gq):
+    R = 'C06.i'
+    # the quadrature helper: callee of GammaQ's a>aMax branch that calls Integrate
+    helper = None
+    for c_ in calls(gq):
+        cc = c_.get('callee') or {}
+        if cc.get('inrepo'):
+            g = prog.by_sig(cc['sig'])
+            if g is not None and any((x.get('callee') or {}).get('q') == L + 'Integrate' for x in calls(g)):
+                helper = g
+    if helper is None:
+        ctx.undecided(R, 'quadrature:window', gq, 'quadrature helper not found')
+        return
+    sx = Symx(prog, helper)
+    outs = sx.run()
+    xs = sx.symbol(helper.params[0]['name'], 'double')
+    bad = []
+    n = 0
+    for o in outs:
+        for v in list(o.state.env.values()) + ([o.value] if isinstance(o.value, sp.Basic) else []):
+            if not isinstance(v, sp.Basic):
+                continue
+            for app in v.atoms(sp.core.function.AppliedUndef):
+                if app.func.__name__ in (L + 'Integrate', L + 'Find_Epsilon') and len(app.args) >= 3:
+                    n += 1
+                    lo, hi = app.args[1], app.args[2]
+                    for nm, t in (('lower', lo), ('upper', hi)):
+                        ok = t == 0 or t == xs or (isinstance(t, sp.Max) and 0 in t.args) or (t.is_number and t >= 0)
+                        if not ok:
+                            # a Piecewise/other form: try to bound below by 0 through its structure
+                            if isinstance(t, sp.Piecewise) and all((e_ == 0 or (isinstance(e_, sp.Max) and 0 in e_.args)) for e_, c_ in t.args):
+                                ok = True
+                        if not ok:
+                            bad.append('%s limit of %s is %s' % (nm, app.func.__name__.split('::')[-1], t))
+    ctx.decide(R, 'quadrature:window', helper, not bad and n >= 2, 'all %d integration limits are 0, max(0, .) or x' % n,
+               'the quadrature can evaluate log(t) at negative t: %s' % sorted(set(bad)),
+               witness={'limits': sorted(set(bad)), 'reproducer': 'a slightly above 100 (e.g. CDF_Poisson(mu,100)): the window starts below 0 and the result is NaN'} if bad else None)
